@@ -131,7 +131,13 @@ void XdlParser::reset()
 	_context.clear();
 	_context << ROOT;
 	_state = WAIT_VALUE;
+	_prevState = _state;
 	_buffer = "";
+	_inComment = false;
+	_unicodeCount = 0;
+	_props.clear();
+	_lists.clear();
+	_lists << Var(Var::ARRAY);
 }
 
 void XdlParser::parse(const char* s)
